@@ -65,7 +65,12 @@ def main():
     killed = 0
     results = []
     for m in sel:
-        rc, viol, buckets, wall, tail = run_one(m, args.tier, args.budget, None)
+        try:
+            rc, viol, buckets, wall, tail = run_one(m, args.tier, args.budget, None)
+        except RuntimeError as e:      # the pattern is gone from the current tree: the mutant needs rewriting, the others still run
+            results.append({"prop": m["prop"], "name": m["name"], "killed": False, "stale": True, "error": str(e)})
+            print(f"STALE    {m['prop']} {m['name']}: {e}", flush=True)
+            continue
         ok = rc == 1 and viol
         killed += bool(ok)
         results.append({"prop": m["prop"], "name": m["name"], "killed": bool(ok), "exit": rc, "wall_s": round(wall, 1),
